@@ -67,7 +67,7 @@ def judge(ctx, results, bad, engine, widen=None):
             common.report_violation(ctx, "harness engine '%s' failed to run against the current /repo (crash, panic, hang or build break): %s" % (engine, r.get("log", "")[-600:]),
                                     {"engine": engine, "log": r.get("log", "")}, no_input=True)
             continue
-        for v in r["stats"].get("violations", []):
+        for v in (r["stats"].get("violations") or []):
             if isinstance(v, str) and v.startswith(ctx.pid + " "):
                 concrete.append((r, v))
         for i in r.get("diffs", []):
@@ -81,7 +81,7 @@ def judge(ctx, results, bad, engine, widen=None):
             for r in widen():
                 if r.get("failed"):
                     continue
-                found += [(r, v) for v in r["stats"].get("violations", []) if isinstance(v, str) and v.startswith(ctx.pid + " ")]
+                found += [(r, v) for v in (r["stats"].get("violations") or []) if isinstance(v, str) and v.startswith(ctx.pid + " ")]
                 if found:
                     break
         found = [(r, v) for r, v in found if not (_known_key(v) and any(k["property"] == ctx.pid and k["key"] == _known_key(v) for k in common.known_findings()))]
